@@ -277,18 +277,18 @@ class CylcWorkflowDBChecker:
         # (Outputs and flow_nums are serialised).
         if task:
             if '*' in task:
-                # Replace Cylc ID wildcard with Sqlite query wildcard.
-                task = task.replace('*', '%')
-                stmt_wheres.append("name like ?")
+                # "*" is the only wildcard: use case-sensitive GLOB with
+                # its other metacharacters quoted.
+                task = _to_sqlite_glob(task)
+                stmt_wheres.append("name GLOB ?")
             else:
                 stmt_wheres.append("name==?")
             stmt_args.append(task)
 
         if cycle:
             if '*' in cycle:
-                # Replace Cylc ID wildcard with Sqlite query wildcard.
-                cycle = cycle.replace('*', '%')
-                stmt_wheres.append("cycle like ?")
+                cycle = _to_sqlite_glob(cycle)
+                stmt_wheres.append("cycle GLOB ?")
             else:
                 stmt_wheres.append("cycle==?")
             stmt_args.append(cycle)
@@ -372,6 +372,21 @@ class CylcWorkflowDBChecker:
                 or TASK_OUTPUT_FAILED in outputs
             )
         )
+
+
+def _to_sqlite_glob(pattern: str) -> str:
+    """Translate a Cylc ID pattern ("*" wildcard only) to a Sqlite GLOB.
+
+    GLOB is case-sensitive and treats "_" and "%" literally; its other
+    metacharacters ("?" and "[") are quoted as one-character sets.
+
+    Examples:
+        >>> _to_sqlite_glob('foo_*')
+        'foo_*'
+        >>> _to_sqlite_glob('a?[b]*')
+        'a[?][[]b]*'
+    """
+    return ''.join(f'[{c}]' if c in '?[' else c for c in pattern)
 
 
 def check_polling_config(selector, is_trigger, is_message):
